@@ -391,6 +391,108 @@ def d2_values(ctx, prog, f, data, axis, key):
     return True
 
 
+def d5_axes(ctx, prog):
+    """every axis numpy accepts (-ndim .. ndim-1) through the public entry points, by value numbering (sa.symtensor):
+      HammingWeight(nb_words = 1, 2)(data, axis) for negative axes equals the result for the equivalent non-negative axis;
+      the discriminant wrapper hands its function an axis and accepts the result reduced along that axis for every such axis.
+    An entry point that maps only -1 leaves -2, -3, ... to code that compares the axis with enumerated dimension numbers: the
+    grouping then returns an unshrunk, zero-padded array without any error, the discriminants refuse a valid request."""
+    from .. import symtensor, ratfun
+    np = symtensor.np
+    if np is None:
+        return 0
+    Q = ratfun.Q
+    n = 0
+    hw = prog.need_class(M, 'HammingWeight')
+    call = prog.resolve_method(hw, '__call__')
+    comp = prog.resolve_method(hw, '_compute')
+    data_p, axis_p = [p_ for p_ in call.params if p_ != 'self'][:2]
+    cdata = comp.params[1]
+
+    def hook(e, fn_, env, te):
+        if isinstance(e.func, ast.Subscript) and len(e.args) == 1 and not e.keywords and isinstance(e.args[0], ast.Name) and e.args[0].id == cdata:
+            return te.ev(fn_, e.args[0], env)
+        return NotImplemented
+    key = f'{call.key}::negative axes'
+    bad = None
+    try:
+        for shape in ((4,), (2, 4), (4, 3), (2, 4, 2), (3, 3, 3)):
+            arr = np.empty(shape, dtype=object)
+            for idx in np.ndindex(*shape):
+                arr[idx] = Q.sym('h' + ''.join(map(str, idx)))
+            for k in (1, 2):
+                ref = {}
+                for ax in list(range(len(shape))) + list(range(-len(shape), 0)):
+                    if shape[ax] < k:
+                        continue
+                    te = symtensor.TensorEval(prog, hw, {'self.nb_words': k, 'self.expected_dtype': 'DT'})
+                    te.call_hook = hook
+                    n += 1
+                    try:
+                        got = te.run(call, {data_p: arr.copy(), axis_p: ax})
+                    except symtensor.Raised as e_:
+                        got = ('raises', e_.kind)
+                    a_ = ax % len(shape)
+                    moved = np.moveaxis(arr, a_, -1)
+                    g_ = shape[a_] // k
+                    want = np.empty(moved.shape[:-1] + (g_,), dtype=object)
+                    for idx in np.ndindex(*want.shape):
+                        tot = Q.const(0)
+                        for j in range(k):
+                            tot = tot + moved[idx[:-1] + (idx[-1] * k + j,)]
+                        want[idx] = tot
+                    want = np.moveaxis(want, -1, a_)
+                    same = isinstance(got, np.ndarray) and isinstance(want, np.ndarray) and got.shape == want.shape and \
+                        all((got[i] if isinstance(got[i], Q) else Q.lift(got[i])).same(want[i] if isinstance(want[i], Q) else Q.lift(want[i])) for i in np.ndindex(*want.shape))
+                    if not same and bad is None:
+                        bad = (f'HammingWeight(nb_words={k}) on data of shape {shape}: axis={ax} gives ' + (f'an array of shape {got.shape}' if isinstance(got, np.ndarray) else f'{got}') +
+                               f'; the weights grouped by {k} along dimension {ax % len(shape)} have shape {want.shape}' + (' - a negative axis other than -1 is not mapped before it is compared with dimension numbers' if ax < -1 else ' - the requested axis is not the one that is grouped'))
+        ctx.check(bad is None, 'C15-D5', key, f'{bad}', f'{n} (shape, nb_words, axis) cases through Model.__call__: every negative axis gives the result of its non-negative equivalent', call.where(), cases=n)
+    except ratfun.Unknown as e:
+        ctx.undecided('C15-D5', key, f'Model.__call__ / HammingWeight._compute not evaluable: {e}', call.where())
+    # the discriminant wrapper
+    dec = prog.need_func(D, 'discriminant')
+    inner = [g for g in prog.funcs if g.parent is dec]
+    if len(inner) != 1:
+        ctx.undecided('C15-D5', f'{dec.key}::wrapper', 'wrapper function of the discriminant decorator not identified', dec.where())
+        return n
+    w = inner[0]
+    fn = dec.params[0]
+    wd, wa = w.params[0], w.params[1]
+    key = f'{w.key}::negative axes'
+    bad = None
+    m = 0
+
+    def hook2(e, fn_, env, te):
+        if isinstance(e.func, ast.Name) and e.func.id == fn and fn not in env:
+            args = [te.ev(fn_, a, env) for a in e.args]
+            kws = {k.arg: te.ev(fn_, k.value, env) for k in e.keywords}
+            ax_ = kws.get('axis', args[1] if len(args) > 1 else None)
+            return args[0].sum(axis=ax_)             # any reducer: what matters is along which axis the wrapper asks and what it accepts
+        return NotImplemented
+    try:
+        for shape in ((2, 4), (3, 3), (2, 3, 4)):
+            arr = np.empty(shape, dtype=object)
+            for idx in np.ndindex(*shape):
+                arr[idx] = Q.sym('x' + ''.join(map(str, idx)))
+            for ax in range(-len(shape), len(shape)):
+                te = symtensor.TensorEval(prog, None, {})
+                te.call_hook = hook2
+                m += 1
+                want = arr.sum(axis=ax)
+                try:
+                    got = te.run(w, {wd: arr.copy(), wa: ax})
+                except symtensor.Raised as e_:
+                    bad = bad or f'a discriminant called with axis={ax} on data of shape {shape} is refused ({e_.kind}) although the function reduced exactly that axis: only -1 is mapped before the shape test'
+                    continue
+                if not (isinstance(got, np.ndarray) or isinstance(got, Q)) or np.shape(got) != np.shape(want):
+                    bad = bad or f'a discriminant called with axis={ax} on data of shape {shape} returns shape {np.shape(got)}, the reduction along that axis has shape {np.shape(want)}'
+        ctx.check(bad is None, 'C15-D5', key, f'{bad}', f'{m} (shape, axis) cases: the wrapper reduces along the requested axis and accepts the result for every axis in -ndim .. ndim-1', w.where(), cases=m)
+    except ratfun.Unknown as e:
+        ctx.undecided('C15-D5', key, f'discriminant wrapper not evaluable: {e}', w.where())
+    return n + m
+
+
 def d2(ctx, prog, dispatch_call):
     from .. import grouplayout as gl
     hw = prog.need_class(M, 'HammingWeight')
@@ -696,7 +798,12 @@ def axis_norm(ctx, rule, f, data, axis, key):
             if ok_guard and val is not None and not ok_val and set(k for k in val if k) <= nd | {axis}:
                 if gt[0][0] == f'{axis} < 0' and astutil.affine_eq(val, {axis: 1, [k for k in val if k and k != axis][0] if [k for k in val if k and k != axis] else '': 1}):
                     ok_val = True
-            if ok_guard and ok_val:
+            if isinstance(s, ast.Assign) and isinstance(s.value, ast.BinOp) and isinstance(s.value.op, ast.Mod) and norm(s.value.right) in nd and astutil.affine(s.value.left) is not None \
+                    and set(k_ for k_ in astutil.affine(s.value.left) if k_) <= {axis}:
+                lhs = astutil.affine(s.value.left)
+                ctx.check(lhs == {axis: 1}, rule, f'{key}::axis normalisation', f'`{norm(s)}` maps the requested axis to another dimension (the axis itself modulo the number of dimensions is its non-negative equivalent)',
+                          f'`{norm(s)}`: every axis in -ndim .. ndim-1 is mapped to its non-negative equivalent', f.where(s))
+            elif ok_guard and ok_val:
                 ctx.ok(rule, f'{key}::axis normalisation', f'`{norm(s)}` under `{gt[0][0]}`: -1 means the last axis', f.where(s))
             elif ok_guard and val is not None:
                 ctx.fail(rule, f'{key}::axis normalisation', f'`{norm(s)}` under `{gt[0][0]}`: axis -1 is not mapped to the last axis (ndim - 1)', f.where(s))
@@ -814,3 +921,5 @@ def run(ctx, prog):
     d4(ctx, prog)
     ctx.unit('functions_analysed', ['_fhw8', '_fhw16', '_fhw32', '_fhw64', 'HammingWeight._compute', 'Monobit._compute', 'Value._compute', 'Model.__call__',
                                     'discriminant', 'nanmax', 'maxabs', 'opposite_min', 'nansum', 'abssum'])
+    ctx.rule('C15-D5', 'every axis in -ndim .. ndim-1 through the public entry points: HammingWeight grouping along a negative axis equals the grouping along its non-negative equivalent; the discriminant wrapper reduces along the requested axis and accepts the result')
+    ctx.floor('axis cases interpreted', d5_axes(ctx, prog), 30)
